@@ -23,12 +23,8 @@ from .sir import loc
 # rendering of a child-output term such as 'b.out'.
 ASSUMED = [
     ('Alma', 'gt', 'arg.sigma', 0.0, 'constructor precondition: sigma > 0 (admissible parameters)'),
-    ('Alma', 'gt', 'in.s', 0.0, 's = N/sigma is set once by the constructor from N >= 1 and sigma > 0 and never written by update (census)'),
-    ('Alma', 'ge', 'in.cum_wt', 0.0, 'cum_wt mirrors the sum of the weights stored in q_wtd (C02 M1); every stored weight is an exp(·) > 0'),
-    ('Alma', 'ge', 'in.cum_wt', 'front(in.q_wtd)', 'cum_wt is the sum of the stored positive weights, front(q_wtd) is one of them (C02 M1)'),
     ('Divide', 'ne', 'b.out', 0.0, 'property domain: divisor non-zero'),
     ('Drawdown', 'gt', 'view.out', 0.0, 'property domain: positive inputs'),
-    ('Drawdown', 'ge', 'in.peak', 0.0, 'peak starts at the smallest positive value and only ever takes inner outputs (> 0 by the domain)'),
     ('LnReturn', 'gt', 'in.current_val', 0.0, 'holds inner outputs, positive by the property domain'),
     ('LnReturn', 'gt', 'in.last_val', 0.0, 'holds inner outputs, positive by the property domain'),
     ('HLNormalizer', 'le', 'in.min', 'in.last', 'min is the minimum of the window (C02 X1) and last is its newest element'),
@@ -40,6 +36,40 @@ ASSUMED = [
 EXCEPTIONS = [
     ('BinaryEntropy', 'flog2', r'.', 'log2(0) = -inf gives 0·(-inf) = NaN, masked by the is_nan reset that post-dominates it'),
 ]
+
+
+def ctor_constant_facts(m, B):
+    """Derived facts about float fields that only constructors write: sign of the initial term under the constructor's
+    preconditions (usize arguments >= 1 and its asserts, reviewed argument facts such as sigma > 0), by interval analysis."""
+    out = []
+    inits = [x for x in m.ctor_models if x['init'] is not None and x['fn'].vis.startswith('Public')]
+    if not inits:
+        return out
+    from .e3_bounds import is_int_ty
+    for cell, ty in B.ftypes.items():
+        if cell in m.touched or is_int_ty(ty) or not (ty.get('param') or ty.get('prim') in ('f32', 'f64')):
+            continue
+        pos = nonneg = nz = True
+        for mm in inits:
+            t = mm['init'].get(cell)
+            if t is None:
+                pos = nonneg = nz = False
+                break
+            pre = [op('ge', ('arg', a), lit(1, 'i')) for a in B.int_args] + [c for c in mm['pre'] if isinstance(c, tuple)]
+            H = Hyps(pre, B.ctx(mm['vg']))
+            facts = assumed_facts(m.v.name, [t])
+            fs = FSign(facts, int_lb_factory(H), mm['vg'].loops)
+            r = fs.rng(t)
+            pos = pos and r.positive()
+            nonneg = nonneg and r.nonneg()
+            nz = nz and not r.contains_zero()
+        if pos:
+            out.append(op('gt', ('in', cell), lit(0.0)))
+        elif nonneg:
+            out.append(op('ge', ('in', cell), lit(0.0)))
+        elif nz:
+            out.append(op('ne', ('in', cell), lit(0.0)))
+    return out
 
 
 def assumed_facts(vname, terms):
@@ -150,6 +180,10 @@ class Ready:
                 vg = VG(self.F, v)
                 vg.run(h, '')
                 vgs.append((vg, h.name, self.B.pre + self.inv))
+        # facts derived on this tree (not assumed): constructor-only float fields, buffer-sum accumulators
+        from .e_window import buffer_sum_facts
+        derived = ctor_constant_facts(self.m, self.B) + buffer_sum_facts(self.F, v)
+        counters['derived-facts'] = counters.get('derived-facts', 0) + len(derived)
         for vg, label, entry in vgs:
             ctx = self.B.ctx(vg)
             base = Hyps(entry, ctx)
@@ -177,6 +211,8 @@ class Ready:
                 facts = assumed_facts(v.name, ev_terms)
                 if facts:
                     counters['assumed-fact-uses'] = counters.get('assumed-fact-uses', 0) + 1
+                if label in ('update', 'last') or not any(mm['fn'].name == label for mm in self.m.ctor_models):
+                    facts = facts + derived
                 fs0 = FSign([c for c in pc if not (isinstance(c, tuple) and c and c[0] == 'inloop')] + facts, int_lb_factory(H), vg.loops, trip_pos)
                 fs = AllCases(fs0.cases())
                 if ev.kind in ('debug_assert', 'assert'):
@@ -189,7 +225,9 @@ class Ready:
                     else:
                         conds = []
                     for c in conds:
-                        if c[0] == 'op' and c[1] == 'is_finite':
+                        if c[0] == 'op' and c[1] == 'is_finite' or (
+                                c[0] == 'op' and c[1] == 'or' and any(x[0] == 'op' and x[1] == 'is_finite' for x in c[2])):
+                            # finiteness assertions (possibly weakened by a readiness disjunct) are the subject of the division/log/sqrt census
                             counters['finite-asserts'] = counters.get('finite-asserts', 0) + 1
                             continue
                         if structural_cond(c, ctx):
